@@ -1,5 +1,6 @@
 import Verif.Model.RemoveUnused
 import Verif.Proofs.RemoveUnused
+import Verif.Proofs.FlattenPipeline
 
 /-!
 # C06 — RemoveUnused removes exactly what nothing refers to (model of the removal phases)
@@ -52,5 +53,26 @@ theorem only_definitions_shrink (f : Facts) (x : Ext) (d d' : J) (fuel : Nat) (h
     ∀ k, k ≠ "definitions" → d'.get? k = d.get? k := by
   have _ := hd  -- not needed: the loop invariant holds for every JSON value
   exact (Proofs.RemoveUnused.removeUnused_ok f x fuel d d' h).2
+
+/-- C06 for the whole pipeline of the Flatten model (`Flatten.flattenLocal`: every phase after
+    `expand`, Minimal or full mode, documents whose schema `$ref`s are local): with RemoveUnused, when
+    Flatten returns normally the shared parameters and responses sections are empty and every
+    remaining definition is designated by a schema `$ref` of the returned document — whatever the
+    document, the names in it, the external functions and the number of loop iterations.
+    (That the returned `$ref`s do not dangle and that operations keep their meaning is decided per
+    run by the validators of C02 / C01.) -/
+theorem pipeline_removeUnused (fc : Facts) (x : Flatten.Ext) (o : Flatten.Opts) (fuel : Nat) (s s' : Flatten.St)
+    (h : Flatten.flattenLocal fc x o fuel s = .ok s') (hr : o.removeUnused = true) :
+    s'.doc.getObj "parameters" = [] ∧ s'.doc.getObj "responses" = [] ∧
+    ∀ kv ∈ s'.doc.getObj "definitions",
+      (RemoveUnused.usedNames fc { refName := Flatten.refName x } s'.doc).contains kv.1 = true :=
+  Proofs.FlattenPipeline.flattenLocal_removeUnused fc x o fuel s s' h hr
+
+/-- none of the rewriting phases can bring a shared section back: the replace primitives only
+    rewrite below keys that exist -/
+theorem phases_never_create_shared_sections (fc : Facts) (x : Flatten.Ext) (o : Flatten.Opts) (fuel : Nat)
+    (s s' : Flatten.St) (h : Flatten.stripPointersAndOAIGen fc x o fuel s = .ok s')
+    (hn : Proofs.FlattenBase.NoShared s.doc) : Proofs.FlattenBase.NoShared s'.doc :=
+  Proofs.FlattenPhases.stripPointersAndOAIGen_inv Proofs.FlattenPipeline.noShared_docInv fc x o fuel s s' h hn
 
 end C06
